@@ -30,6 +30,13 @@ Theorem barrier_arrivals_count_ops : forall n progs s u l,
   nth_error progs u = Some (prog0 l) /\ length (prog0 l) = (arr l + length (todo l))%nat.
 Proof. exact arrivals_count_ops. Qed.
 
+(* even when fast threads re-enter immediately: lGen is read under the mutex at the arrival, so a
+   thread in the wait loop has lGen = arr - 1 and waits for the current generation iff arr = generation + 1 *)
+Theorem barrier_lgen_is_arrival : forall n progs s u l,
+  wf_prog n progs = true -> R n progs s -> nth_error (thr s) u = Some l -> waiting (at_ l) = true ->
+  lgen l = Z.of_nat (arr l) - 1 /\ Z.of_nat (arr l) <= generation (gl s) + 1 /\ (lgen l = generation (gl s) <-> Z.of_nat (arr l) = generation (gl s) + 1).
+Proof. exact lgen_is_arrival. Qed.
+
 (* Drop bookkeeping.  threshold_ is the number of participants that have not dropped; count_ is the
    number of those that have not yet arrived in the current generation; 0 <= count <= threshold and
    1 <= count whenever a participant is left; neither unsigned decrement ever wrapped. *)
